@@ -597,7 +597,7 @@ func sortStrings(xs []string) {
 
 func c03(r *vkit.Run) {
 	r.SetRule("single-threaded histories of 20 ops. gslb level (2/3): 1-4 sub-clusters (weights incl. 0 and negative, GSLB_BLACKHOLE with weight 0 or positive, with or without backends), 0-6 backends each (weights incl. 0 and negative as ClusterTableLoad accepts them), WRR / WLC / sticky, RetryMax 0..3, CrossRetry 0..2, RetryTime 0..RetryMax+CrossRetry+1; ops = Balance / SetAvail (single backend or whole sub-cluster) / Reload+BackendReload with a valid conf / SetGslbBasic. rr level (1/3): BalanceRR with all five algorithms, lists of 0-6 backends. Before each Balance a snapshot is taken through the verif accessor; the reference decides: eligible backend = available and weight>0; first choice = the sub-cluster the balancer's own sub-cluster selection assigns to the key (must have weight>0, blackhole must be rejected); in-cluster phase (RetryTime<=RetryMax) must succeed iff the primary has an eligible backend, otherwise cross phase: no success unless CrossRetry>0 and a non-blackhole other sub-cluster with weight>=0 has an eligible backend; if all such candidates are eligible it must succeed; if only some are, the randomly drawn candidate reported in req.Backend.SubclusterName decides. Excluded: RetryTime beyond the retry budget (C08), negative-weight sub-clusters as cross candidates (undocumented), WrrSimple on an empty list or with an available negative-weight backend (C05 totality class). Non-trivial = history with >=1 Balance that saw both eligible and ineligible backends; distinct = whole history. " +
-		"SLOW START ENABLED (c03ss.go; 4000 histories, thorough 80000; half BalanceRR with WrrSmooth / WlcSmooth / WlcSimple / WrrSimple / WrrSticky, half BalanceGslb with one weighted sub-cluster + blackhole 0 in WRR / WLC / sticky mode, slow_start_time 1/5/30/60 s set through SetSlowStart): 1-4 initial backends (weights 0..3), then 3-6 rounds of [connections held on the positive-weight backends (WLC: mostly)] + one event + 1-3 decisions, the FIRST decision directly after the event (no warm-up). Events: backend reload adding 1-2 backends (half of them configured with weight 0; a third of the time after all other backends went down); a backend taken down and brought back as the health checker does (SetRestart(true), SetAvail(true)), preferably one with weight 0, a third of the time with all others down; reload changing the weight of a present backend to / from 0; reload replacing every backend. Oracle on the harness' model of the configuration: a returned backend is in the current list, available and has a CONFIGURED weight > 0; an error is a violation when an available backend with configured weight > 0 exists that is not ramping (restart flag pending or InSlowStart before the call). Excluded: an error while every such backend is ramping (effective weight starts at 0; property and docs do not say what weight a ramping backend has) - counted, not judged. No sleeps, no verdict depends on time. Non-trivial = history with a first decision taken while a restart-flagged backend of configured weight 0 was present; distinct = whole history")
+		"SLOW START ENABLED (c03ss.go; 4000 histories, thorough 80000; half BalanceRR with WrrSmooth / WlcSmooth / WlcSimple / WrrSimple / WrrSticky, half BalanceGslb with one weighted sub-cluster + blackhole 0 in WRR / WLC / sticky mode, slow_start_time 1/5/30/60 s set through SetSlowStart): 1-4 initial backends (weights 0..3), then 3-6 rounds of [connections held on the positive-weight backends (WLC: mostly)] + one event + 1-3 decisions, the FIRST decision directly after the event (no warm-up). Events: backend reload adding 1-2 backends (half of them configured with weight 0; a third of the time after all other backends went down); a backend taken down and brought back as the health checker does (SetRestart(true), SetAvail(true)), preferably one with weight 0, a third of the time with all others down; reload changing the weight of a present backend to / from 0; reload replacing every backend; with slow_start_time 1 s a sixth of the rounds sleeps 12-25 ms and decides 1-4 more times (ramping backends then have a positive effective weight). Oracle on the harness' model of the configuration: a returned backend is in the current list, available and has a CONFIGURED weight > 0; an error is a violation when an available backend with configured weight > 0 exists that is not ramping (restart flag pending or InSlowStart before the call). Excluded: an error while every such backend is ramping (effective weight starts at 0; property and docs do not say what weight a ramping backend has) - counted, not judged. No verdict depends on time. Non-trivial = history with a first decision taken while a restart-flagged backend of configured weight 0 was present; distinct = whole history")
 	r.Assume("the first-choice sub-cluster is observed through the verif accessor VerifPrimary, which runs the balancer's own subClusterBalance on the same key and state")
 	nops := 20
 	if r.Replay != "" {
